@@ -1,6 +1,7 @@
 import FqModel.Scalar
 import Proofs.C02Int
 import Proofs.C02Le
+import Proofs.C02Leb
 /-! C02 helper lemmas: text framing and the UTF-8 / UTF-16 codecs. Core Lean only. -/
 namespace Proofs.C02
 open FqModel FqModel.Scalar
@@ -70,6 +71,22 @@ theorem findZeroUnit_spec (bs : Bits) (unit : Nat) (hu : 0 < unit) : ∀ (fuel o
             rw [e]; exact this
     · rw [if_neg hin] at h; simp at h
 
+theorem findZeroFrom_eq (bs : Bits) (unit : Nat) (hu : 0 < unit) : ∀ (fuel off : Nat),
+    findZeroFrom unit fuel (bs.drop off) off = findZeroUnit bs unit fuel off := by
+  intro fuel
+  induction fuel with
+  | zero => intro off; rfl
+  | succ fuel ih =>
+    intro off
+    unfold findZeroFrom findZeroUnit
+    have hlen : ((bs.drop off).take unit).length = unit ↔ off + unit ≤ bs.length := by
+      simp only [List.length_take, List.length_drop]; omega
+    have hsl : (bs.drop off).take unit = slice bs off unit := rfl
+    have hdd : (bs.drop off).drop unit = bs.drop (off + unit) := by rw [List.drop_drop]
+    by_cases hin : off + unit ≤ bs.length
+    · rw [if_pos (hlen.mpr hin), if_pos hin, hsl, hdd, ih]
+    · rw [if_neg (fun h => hin (hlen.mp h)), if_neg hin]
+
 /-- null terminated text, terminator found: the bytes before the terminator, position after it -/
 theorem textNull_found (bs : Bits) (pos cb off : Nat) (hcb : 1 ≤ cb)
     (hf : findZeroUnit bs (8 * cb) (bs.length + 1) pos = some off) :
@@ -78,7 +95,7 @@ theorem textNull_found (bs : Bits) (pos cb off : Nat) (hcb : 1 ≤ cb)
   obtain ⟨h1, h2, h3, _, _⟩ := findZeroUnit_spec bs (8 * cb) (by omega) _ _ _ hf
   unfold tryTextNullFrame
   have : ¬ cb < 1 := by omega
-  simp only [this, if_false, hf]
+  simp only [this, if_false, findZeroFrom_eq bs (8 * cb) (by omega), hf]
   have hdiv : 8 ∣ off - pos := Nat.dvd_trans ⟨cb, rfl⟩ h3
   have hlen : pos + 8 * ((off - pos) / 8 + cb) ≤ bs.length := by omega
   rw [tryBytesLen_ok bs pos _ hlen]
@@ -93,7 +110,7 @@ theorem textNull_missing (bs : Bits) (pos cb : Nat) (hcb : 1 ≤ cb)
     tryTextNullFrame bs pos cb = .err .eof pos := by
   unfold tryTextNullFrame
   have : ¬ cb < 1 := by omega
-  simp only [this, if_false, hf]
+  simp only [this, if_false, findZeroFrom_eq bs (8 * cb) (by omega), hf]
 
 /-- fixed length with optional null: always exactly `n` bytes consumed, cut at the first zero byte -/
 theorem textNullLen_ok (bs : Bits) (pos n : Nat) (h : pos + 8 * n ≤ bs.length) :
@@ -418,5 +435,89 @@ theorem textLenPrefixedFrame_cases (bs : Bits) (pos : Nat) (fixed : Int) (hp : p
       have : max pos bs.length = bs.length := by omega
       rw [this]
       exact Or.inr (Or.inr (Or.inr ⟨rfl, by omega⟩))
+
+
+/-! ### a null-terminated string of ANY length (no scan limit) -/
+
+theorem chunks8_nil' (f : Nat) : chunks8 f [] = [] := by cases f <;> simp [chunks8]
+
+theorem bitsOfBytes_cons (b : Nat) (l : List Nat) : bitsOfBytes (b :: l) = toBitsBE 8 b ++ bitsOfBytes l := by
+  simp [bitsOfBytes]
+
+theorem bitsOfBytes_len (l : List Nat) : (bitsOfBytes l).length = 8 * l.length := by
+  induction l with
+  | nil => simp [bitsOfBytes]
+  | cons a l ih => rw [bitsOfBytes_cons, List.length_append, toBitsBE_length, ih, List.length_cons]; omega
+
+/-- the terminator search over `txt ++ [0]` with no zero byte in txt ends exactly after txt, however long -/
+theorem findZeroUnit_text (txt : List Nat) : ∀ (pre rest : Bits) (fuel : Nat),
+    (∀ b ∈ txt, 0 < b ∧ b < 256) → txt.length < fuel →
+    findZeroUnit (pre ++ bitsOfBytes (txt ++ [0]) ++ rest) 8 fuel pre.length = some (pre.length + 8 * txt.length) := by
+  induction txt with
+  | nil =>
+    intro pre rest fuel _ hf
+    obtain ⟨f, rfl⟩ : ∃ k, fuel = k + 1 := ⟨fuel - 1, by simp at hf; omega⟩
+    have hsl : slice (pre ++ bitsOfBytes ([] ++ [0]) ++ rest) pre.length 8 = toBitsBE 8 0 := by
+      have := slice_mid pre (toBitsBE 8 0) rest
+      simpa [bitsOfBytes, toBitsBE_length] using this
+    have hin : pre.length + 8 ≤ (pre ++ bitsOfBytes ([] ++ [0]) ++ rest).length := by
+      simp [bitsOfBytes, toBitsBE_length]
+    unfold findZeroUnit
+    rw [if_pos hin, hsl, ofBitsBE_toBitsBE]
+    simp
+  | cons b t ih =>
+    intro pre rest fuel hb hf
+    obtain ⟨f, rfl⟩ : ∃ k, fuel = k + 1 := ⟨fuel - 1, by simp at hf; omega⟩
+    have hb0 := hb b (by simp)
+    have hbits : pre ++ bitsOfBytes ((b :: t) ++ [0]) ++ rest = pre ++ toBitsBE 8 b ++ (bitsOfBytes (t ++ [0]) ++ rest) := by
+      simp [bitsOfBytes, List.append_assoc]
+    have hsl : slice (pre ++ toBitsBE 8 b ++ (bitsOfBytes (t ++ [0]) ++ rest)) pre.length 8 = toBitsBE 8 b := by
+      have := slice_mid pre (toBitsBE 8 b) (bitsOfBytes (t ++ [0]) ++ rest)
+      rwa [toBitsBE_length] at this
+    have hin : pre.length + 8 ≤ (pre ++ toBitsBE 8 b ++ (bitsOfBytes (t ++ [0]) ++ rest)).length := by
+      simp [toBitsBE_length]
+    rw [hbits]
+    unfold findZeroUnit
+    rw [if_pos hin, hsl, ofBitsBE_toBitsBE]
+    have hne : ¬ (b % 2 ^ 8 = 0) := by
+      have : b % 2 ^ 8 = b := Nat.mod_eq_of_lt (by simpa using hb0.2)
+      omega
+    rw [if_neg hne]
+    have hassoc : pre ++ toBitsBE 8 b ++ (bitsOfBytes (t ++ [0]) ++ rest) = (pre ++ toBitsBE 8 b) ++ bitsOfBytes (t ++ [0]) ++ rest := by
+      simp [List.append_assoc]
+    have hplen : (pre ++ toBitsBE 8 b).length = pre.length + 8 := by simp [toBitsBE_length]
+    rw [hassoc, ← hplen, ih (pre ++ toBitsBE 8 b) rest f (fun x hx => hb x (by simp [hx])) (by simp at hf; omega), hplen]
+    simp only [List.length_cons]
+    congr 1; omega
+
+theorem chunks8_bitsOfBytes (l : List Nat) (hl : ∀ b ∈ l, b < 256) : ∀ f, l.length < f →
+    (chunks8 f (bitsOfBytes l)).map ofBitsBE = l := by
+  induction l with
+  | nil => intro f _; simp [bitsOfBytes, chunks8_nil']
+  | cons b t ih =>
+    intro f hf
+    obtain ⟨f', rfl⟩ : ∃ k, f = k + 1 := ⟨f - 1, by simp at hf; omega⟩
+    have hb := hl b (by simp)
+    rw [bitsOfBytes_cons]
+    have hemp : (toBitsBE 8 b ++ bitsOfBytes t).isEmpty = false := by
+      cases h : toBitsBE 8 b with
+      | nil => have := toBitsBE_length 8 b; rw [h] at this; simp at this
+      | cons x xs => simp
+    have htk : (toBitsBE 8 b ++ bitsOfBytes t).take 8 = toBitsBE 8 b := by
+      rw [List.take_append_of_le_length (by simp [toBitsBE_length])]
+      exact List.take_of_length_le (by simp [toBitsBE_length])
+    have hdr : (toBitsBE 8 b ++ bitsOfBytes t).drop 8 = bitsOfBytes t := by
+      have h8 : (toBitsBE 8 b).length = 8 := toBitsBE_length 8 b
+      have := List.drop_left (l₁ := toBitsBE 8 b) (l₂ := bitsOfBytes t)
+      rwa [h8] at this
+    simp only [chunks8, hemp, Bool.false_eq_true, if_false, htk, toBitsBE_length, Nat.sub_self, List.replicate_zero,
+      List.append_nil, hdr, List.map_cons, ofBitsBE_toBitsBE]
+    rw [ih (fun x hx => hl x (by simp [hx])) f' (by simp at hf; omega)]
+    congr 1
+    exact Nat.mod_eq_of_lt (by simpa using hb)
+
+theorem byteVals_bitsOfBytes (l : List Nat) (hl : ∀ b ∈ l, b < 256) : byteVals (bitsOfBytes l) = l := by
+  unfold byteVals bytesOf
+  exact chunks8_bitsOfBytes l hl _ (by rw [bitsOfBytes_len]; omega)
 
 end Proofs.C02
